@@ -8,10 +8,66 @@ META = dict(
                       'all symbolic reals'),
     outside_claim=['that numpy.roots returns every root of the cubic (stub: each returned value satisfies the cubic the code hands over)',
                    'the limit statement is proved as an explicit bound |P_vdW - P_ig| <= a/Vm^2 + b R T/(Vm (Vm-b))', 'IEEE rounding'],
-    stubs=['numpy.roots(c): three fresh values r with polyval(c, r) = 0, the first real, the other two both real or both complex '
-           '(symbolic); cached per coefficient vector', 'numpy.isreal on stub roots: the symbolic realness flag'],
+    stubs=['numpy.roots(c): three values satisfying the cubic handed over: one real root r0 (p(r0) = 0) and either two more real roots or a '
+           'complex-conjugate pair x +- i y with y > 0 that together with r0 are all the roots (Vieta relations; introduced only if the code '
+           'looks at the complex roots); both cases explored; cached per coefficient vector',
+           'numpy.isreal / real / imag / abs / iscomplex / conj on stub roots: the corresponding parts (|z| as m >= 0 with m^2 = x^2 + y^2)'],
     assumptions=[],
 )
+
+
+class _Pair:
+    """real part x, imaginary part y > 0 and squared modulus w of a complex-conjugate pair of roots, introduced only when the
+    code under test looks at them, together with what numpy.roots guarantees about them: with the real root r0 they are
+    all the roots of the cubic (Vieta: sum, pair products and product of the roots)"""
+    def __init__(self, ctx, c, r0):
+        self.ctx, self.c, self.r0, self.xyw = ctx, c, r0, None
+
+    def get(self):
+        if self.xyw is None:
+            ctx, c, r0 = self.ctx, self.c, self.r0
+            x = ctx.fresh('root_re')
+            y = ctx.fresh('root_im', 0, None)
+            w = ctx.fresh('root_modulus2', 0, None)
+            ctx.assume(y > 0)
+            ctx.assume(w == x * x + y * y)
+            ctx.assume(c[0] * (r0 + 2 * x) == -c[1])
+            ctx.assume(c[0] * (2 * x * r0 + w) == c[2])
+            ctx.assume(c[0] * r0 * w == -c[3])
+            self.xyw = (x, y, w)
+        return self.xyw
+
+
+class Root:
+    """a root of the cubic as numpy would return it: a real root (value `val`, imaginary part the int 0) or one member
+    (sign = +1 / -1) of a complex-conjugate pair"""
+    def __init__(self, ctx, val=None, pair=None, sign=1):
+        self.ctx = ctx
+        self._val = val
+        self.pair = pair
+        self.sign = sign
+        self.is_real = pair is None
+
+    @property
+    def val(self):
+        return self._val if self.is_real else self.pair.get()[0]
+
+    @property
+    def im(self):
+        return 0 if self.is_real else self.sign * self.pair.get()[1]
+
+    real = val
+    imag = im
+
+    def conjugate(self):
+        return self if self.is_real else Root(self.ctx, pair=self.pair, sign=-self.sign)
+
+    def __abs__(self):
+        if self.is_real:
+            return abs(self.val)
+        m = self.ctx.fresh('modulus', 0, None)
+        self.ctx.assume(m * m == self.pair.get()[2])
+        return m
 
 
 def _install_roots_stub(ctx, single=False):
@@ -23,12 +79,6 @@ def _install_roots_stub(ctx, single=False):
     from symx.proxy import Sym
     cache = {}
 
-    class Root:
-        """a root of the cubic: value + realness flag"""
-        def __init__(self, val, real):
-            self.val = val
-            self.is_real = real
-
     def roots(c):
         c = list(c)
         key = tuple(x.e.uid if isinstance(x, Sym) else x for x in c)
@@ -37,34 +87,46 @@ def _install_roots_stub(ctx, single=False):
             return cache[key]
         assert len(c) == 4
         if single:      # only the coefficient vector is of interest
-            rs = [Root(ctx.fresh('root', 1e-6, 10), True)]
+            rs = [Root(ctx, ctx.fresh('root', 1e-6, 10))]
             cache[key] = rs
             return rs
-        pair_real = ctx.bool('roots_pair_real#%d' % len(cache))
-        rs = []
-        for i in range(3):
-            r = ctx.fresh('root')
-            ctx.assume(((c[0] * r + c[1]) * r + c[2]) * r + c[3] == 0)
-            rs.append(Root(r, True if i == 0 else pair_real))
+        r0 = ctx.fresh('root')
+        ctx.assume(_polyval(c, r0) == 0)
+        rs = [Root(ctx, r0)]
+        if bool(ctx.bool('roots_pair_real#%d' % len(cache))):
+            for i in range(2):
+                r = ctx.fresh('root')
+                ctx.assume(_polyval(c, r) == 0)
+                rs.append(Root(ctx, r))
+        else:
+            pair = _Pair(ctx, c, r0)
+            rs += [Root(ctx, pair=pair, sign=1), Root(ctx, pair=pair, sign=-1)]
         cache[key] = rs
         return rs
 
-    def isreal(x):
-        if isinstance(x, Root):
-            return x.is_real
-        import numpy
-        return numpy.isreal(x)
-
     npshim.stubs['roots'] = roots
-    npshim.stubs['isreal'] = isreal
-    # np.real([...Root...]) -> values
-    orig_real = npshim._Shim.real
+    npshim.stubs['isreal'] = lambda x: x.is_real if isinstance(x, Root) else __import__('numpy').isreal(x)
+    if not getattr(npshim._Shim, '_root_aware', False):
+        npshim._Shim._root_aware = True
 
-    def real(self, a):
-        if isinstance(a, (list, tuple)) and any(isinstance(x, Root) for x in a):
-            return [x.val for x in a]
-        return orig_real(self, a)
-    npshim._Shim.real = real
+        def lift1(name, scalar):
+            orig = getattr(npshim._Shim, name, None)
+
+            def f(self, a, *args, **kw):
+                if isinstance(a, Root):
+                    return scalar(a)
+                if isinstance(a, (list, tuple)) and any(isinstance(x, Root) for x in a):
+                    return [scalar(x) if isinstance(x, Root) else x for x in a]
+                if orig is not None:
+                    return orig(self, a, *args, **kw)
+                return getattr(npshim._np, name)(a, *args, **kw)
+            setattr(npshim._Shim, name, f)
+        lift1('real', lambda r: r.val)
+        lift1('imag', lambda r: r.im)
+        lift1('abs', abs)
+        lift1('absolute', abs)
+        lift1('iscomplex', lambda r: not r.is_real)
+        lift1('conj', lambda r: r.conjugate())
     return rec
 
 
@@ -244,8 +306,8 @@ def groups(tier):
         dict(name='ideal/inversions', harness=h_ideal),
         dict(name='ideal/defaults', harness=h_ideal_defaults),
         dict(name='vdw/T-P-inversions+limit', harness=h_vdw_TP),
-        dict(name='vdw/roots/gas', harness=h_vdw_roots, params=dict(gas_phase=True), branch_timeout_ms=700),
-        dict(name='vdw/roots/liquid', harness=h_vdw_roots, params=dict(gas_phase=False), branch_timeout_ms=700),
+        dict(name='vdw/roots/gas', harness=h_vdw_roots, params=dict(gas_phase=True), branch_timeout_ms=700, remote_feasibility=True),
+        dict(name='vdw/roots/liquid', harness=h_vdw_roots, params=dict(gas_phase=False), branch_timeout_ms=700, remote_feasibility=True),
         dict(name='vdw/cubic', harness=h_vdw_cubic, no_validate=True, branch_timeout_ms=700),
         dict(name='vdw/critical', harness=h_vdw_critical),
         dict(name='vdw/critical-ab', harness=h_vdw_critical_ab),
